@@ -483,5 +483,5 @@ def run(chk):
             if p in pairs:
                 chk.sample({"pair": p, **{k: v for k, v in pairs[p].items() if k != "by input class and outcome"}})
     if chk.thorough:
-        for mod in MODULES:
+        for mod in MODULES + ["ImathVerif.Lemmas.C07GJLink", "ImathVerif.Lemmas.C07LinkInst"]:
             chk.leanchecker(mod)
